@@ -46,3 +46,28 @@ func verifInIDs(s string, ids []string) bool {
 
 // notAfter(a, b): a <= b for instants.
 func verifNotAfter(a, b time.Time) bool { return !a.After(b) }
+
+// verifRandReader is the random source handed to the library: it draws
+// arbitrary bytes (solver variables) and remembers what it handed out.
+type verifRandReader struct {
+	drawn *[]byte
+	calls *int
+}
+
+type verifRandErr struct{}
+
+func (verifRandErr) Error() string { return "verif: random source failed" }
+
+func (r verifRandReader) Read(p []byte) (int, error) {
+	*r.calls++
+	if verifNondetBool("rand.fail") {
+		return 0, verifRandErr{}
+	}
+	for i := range p {
+		b := verifNondetByte("rand.byte")
+		p[i] = b
+		*r.drawn = append(*r.drawn, b)
+	}
+	return len(p), nil
+}
+
